@@ -161,6 +161,15 @@ theorem C07_linear_adjoint {K : Type} [CommRing K] (T : (CVec K n → CVec K m) 
     cinner (linearAdjoint T cp co f y) x = cinner y (f x) :=
   linearAdjoint_adjoint T f cp co hc hT y x
 
+/-- the same for functions that are only **real**-linear (complex → real, e.g. `x ↦ Re(Mx)`; the
+    code's first branch is "C→R or C→C"): with JAX's transposition contract for `Re Σ aᵢbᵢ` the result
+    is the adjoint for `Re⟪·,·⟫` -/
+theorem C07_linear_adjoint_real_pairing (T : (CVec ℝ n → CVec ℝ m) → (CVec ℝ m → CVec ℝ n))
+    (f : CVec ℝ n → CVec ℝ m) (cp co : Bool) (hc : cp = true ∨ co = true)
+    (hT : ∀ y x, reBdot (T (conjFun f) y) x = reBdot y (conjFun f x)) (y : CVec ℝ m) (x : CVec ℝ n) :
+    reInner (linearAdjoint T cp co f y) x = reInner y (f x) :=
+  linearAdjoint_real_adjoint T f cp co hc hT y x
+
 /-- real → real branch (`T fun`): adjoint on real data -/
 theorem C07_linear_adjoint_real {K : Type} [CommRing K] (T : (CVec K n → CVec K m) → (CVec K m → CVec K n))
     (f : CVec K n → CVec K m) (hT : ∀ y x, bdot (T f y) x = bdot y (f x)) (y : CVec K m) (x : CVec K n)
@@ -261,6 +270,28 @@ theorem C07_chain_nonlinear (s : ℝ) (F J : CVec ℝ n → CVec ℝ m) (G : CVe
     IsGradAt (fun z => s * φ (vsub (F z) y)) x (vsmul s (vjpWrap true G g)) :=
   isGradAt_comp_operator s F J G y φ x g hJ hG h
 
+/-- `SquaredSetDistance` (formula of `fixes/set-distance-grad-nan.patch`: `0.5·Σ|x − P(x)|²`, no square
+    root) and `SetDistance` (`‖x − P(x)‖`) for ANY projection `P` with JAX's contracts at `x` (`JP`, `GP`):
+    `grad` — `Gmap` of the residual map `z ↦ z − P z` applied to the outer gradient — is the gradient;
+    the squared distance at **every** `x` (points of the set included), the distance where `x ≠ P x`. -/
+theorem C07_set_distance (P JP GP : CVec ℝ n → CVec ℝ n) (x : CVec ℝ n)
+    (hJ : ∀ d, Tangent (fun t => P (along x d t)) (JP d))
+    (hG : ∀ c d, reBdot (GP c) d = reBdot c (JP d)) :
+    IsGradAt (fun z => (1 / 2) * sumAbs2 (vsub z (P z))) x
+      (vsmul (1 / 2) (vjpWrap true (fun c => vsub c (GP c)) ((Fn.sqL2 : Fn ℝ n).grad (vsub x (P x))))) ∧
+    (sumAbs2 (vsub x (P x)) ≠ 0 →
+      IsGradAt (fun z => norm2 (vsub z (P z))) x
+        (vjpWrap true (fun c => vsub c (GP c)) ((Fn.l2 : Fn ℝ n).grad (vsub x (P x))))) := by
+  obtain ⟨h1, h2⟩ := residual_contracts P JP GP x hJ hG
+  constructor
+  · have h := isGradAt_comp_operator (1 / 2) (fun z => vsub z (P z)) _ _ 0 (Fn.sqL2 : Fn ℝ n).eval x _ h1 h2
+      ((Fn.sqL2 : Fn ℝ n).isCurveGradAt _ trivial)
+    simpa only [vsub_zero, Fn.eval] using h
+  · intro hne
+    have h := isGradAt_comp_operator 1 (fun z => vsub z (P z)) _ _ 0 (Fn.l2 : Fn ℝ n).eval x _ h1 h2
+      ((Fn.l2 : Fn ℝ n).isCurveGradAt _ (by simpa only [vsub_zero, Fn.Smooth] using hne))
+    simpa only [vsub_zero, vsmul_one, one_mul, Fn.eval] using h
+
 /-- the operator family `F(x) = Ax + B conj(x) + (Cx)² + c` of the correspondence: `Op.jvp` **is** the
     derivative of `F` along every line (so "jvp agrees with finite differences" is a theorem for
     it), `Op.vjpT` is its transpose for JAX's pairing, hence `Gmap` is the adjoint of the
@@ -325,6 +356,14 @@ theorem C07_deriv_poisson_abs (s : ℝ) (A : Mat ℝ m n) (y w cst : Vec ℝ m) 
       congr 2
       funext i; apply Cx.ext' <;> simp [conjVec, two_eq, neg_div]
     rwa [e] at hg
+
+/-- `ProximalAverage(func_list, alpha_list)`: its value is `Σ αᵢ fᵢ(x)` (weights as stored by the
+    object) and its `grad` is the gradient wherever every component is smooth -/
+theorem C07_proximal_average (l : List (ℝ × Fn ℝ n)) (x : CVec ℝ n) (h : ∀ p ∈ l, p.2.Smooth x) :
+    (∀ z, (proxAvgFn l .zero).eval z = (l.map (fun p => p.1 * p.2.eval z)).sum) ∧
+    IsGradAt (proxAvgFn l .zero).eval x ((proxAvgFn l .zero).grad x) := by
+  refine ⟨fun z => ?_, (proxAvgFn l .zero).isGradAt x (proxAvgFn_smooth l .zero x trivial h)⟩
+  rw [proxAvgFn_eval]; simp [Fn.eval]
 
 /-- the gradients of `c·f` and `f+g` are the corresponding combinations -/
 theorem C07_combinations (c : ℝ) (f g : Fn ℝ n) (x : CVec ℝ n) :
@@ -523,6 +562,14 @@ example (A : Mat ℝ 2 3) : ∀ c d, bdot (mulVec (transpose A) c) d = bdot c (m
 example (M : Mat ℝ 2 3) : ∀ y x, bdot (mulVec (transpose (conjMat M)) y) x = bdot y (conjFun (mulVec M) x) := by
   intro y x; rw [conjFun_mulVec]; exact bdot_transpose _ y x
 
+-- the hypothesis of `C07_linear_adjoint_real_pairing` holds for the complex → real map `x ↦ Re x`
+-- (not ℂ-linear), whose transpose for `Re Σ aᵢbᵢ` is `y ↦ Re y`
+example : ∀ (y x : CVec ℝ 2), reBdot (Autograd.realPart y) x =
+    reBdot y (conjFun (fun z : CVec ℝ 2 => Autograd.realPart z) x) := by
+  intro y x
+  rw [reBdot_eq, reBdot_eq]
+  exact Finset.sum_congr rfl (fun i _ => by simp [conjFun, conjVec, Autograd.realPart])
+
 -- a history with three live objects
 example : (Heap.run ([] : Heap Nat) [.new 1, .mul 0 2, .setScale 0 5, .mul 1 3]).evalScale 2 = some 6 := by
   decide
@@ -538,6 +585,12 @@ example : let F : Op ℝ 1 1 := ⟨fun _ _ => ⟨1, 0⟩, fun _ _ => ⟨0, 1⟩,
   intro F x
   exact ⟨fun d => (C07_operator_jacobian F x d 0).1, fun c d => (C07_operator_jacobian F x 0 0).2.1 c d,
     C07_curve _ _ (by simp [Fn.Smooth])⟩
+
+-- `C07_set_distance`: the contracts hold for the projection onto a subspace `P z = M z` (any matrix)
+example (M : Mat ℝ 2 2) (x : CVec ℝ 2) :
+    (∀ d, Tangent (fun t => mulVec M (along x d t)) (mulVec M d)) ∧
+    (∀ c d, reBdot (mulVec (transpose M) c) d = reBdot c (mulVec M d)) :=
+  ⟨fun d => tangent_mulVec M (tangent_along x d), reBdot_transpose M⟩
 
 -- `C07_group_norm_structural_zero`: a 1-D non-circular difference `[x₁−x₀, 0]` with one group per row:
 -- the second group is structurally zero, the first is non-zero at `x = (0, 1)`
@@ -561,6 +614,10 @@ example : (Fn.poisson (n := 1) (m := 1) 2 (fun _ _ => ⟨1, 0⟩) (fun _ => 3) (
 example : (Fn.sqL2AbsLoss (n := 1) (m := 1) 2 (fun _ _ => ⟨0, 1⟩) (fun _ => 3) (fun _ => 1) : Fn ℝ 1).Smooth (fun _ => ⟨2, 1⟩) := by
   simp [Fn.Smooth, mulVec_eq, Cx.abs2]
   norm_num
+
+-- `ProximalAverage([L1Norm, SquaredL2Norm], [1, 3])`: stored weights are `1/4, 3/4`
+example : proxAvgWeights 2 (fun k => (k : ℚ)) (some [1, 3]) = [1/4, 3/4] := by
+  simp [proxAvgWeights]; norm_num
 
 -- slot plumbing on a concrete argument list
 example : sliceArgs 1 (fixArgs 1 [10, 20, 30]) 99 = [10, 99, 30] := by decide
